@@ -285,6 +285,28 @@ def St.shape (s : St) : Option (List Nat) :=
 
 def prod (l : List Nat) : Nat := l.foldl (· * ·) 1
 
+/-- what wrapc.set_fmt_fields substitutes for `{c_array_shape}` / `{c_array_size}` at this rank, as
+    recorded by the translator's probe (`Gen.FStmts.ctxProbe`; ranks 1 to 3) -/
+def probeRow (rank : Nat) : Option (List (Nat × Nat) × List Nat) :=
+  match Gen.FStmts.ctxProbe.find? (fun r => r.2.1 == rank) with
+  | some r => some r.2.2
+  | none => none
+
+/-- `ctx->shape[i] = <dimension>` for the declared dimensions `sh` -/
+def ctxShapeOf (sh : List Nat) : Option (List Nat) :=
+  match probeRow sh.length with
+  | some r => some ((List.range sh.length).map fun i =>
+      match r.1.find? (fun a => a.1 == i) with
+      | some a => sh.getD a.2 0
+      | none => 0)
+  | none => none
+
+/-- `ctx->size = shape[i] * shape[j] * ...` -/
+def ctxSizeOf (sh : List Nat) : Option Nat :=
+  match probeRow sh.length, ctxShapeOf sh with
+  | some r, some shp => some (prod (r.2.map fun i => shp.getD i 0))
+  | _, _ => none
+
 /-- `ShroudCopyArray(ctx, c_var, c_var_size)` on elements: `n = min(c_var_size, ctx->size)` elements
     are copied from `addr.base` (Capsule.copyArray with one byte per element) -/
 def copyElems (c : Ctx) (dest : List Int) : Res (List Int) :=
@@ -406,11 +428,17 @@ def execOp (o : Op) (s : St) : Res St :=
     | _, _ => .oob
   | .ctxRankShape c =>
     match s.ctx c, s.shape with
-    | some x, some sh => .ok (s.set c (.ctx { x with rank := sh.length, shape := sh }))
+    | some x, some sh =>
+      match ctxShapeOf sh with
+      | some shp => .ok (s.set c (.ctx { x with rank := sh.length, shape := shp }))
+      | none => .oob
     | _, _ => .oob
   | .ctxSizeExpr c =>
     match s.ctx c, s.shape with
-    | some x, some sh => .ok (s.set c (.ctx { x with size := prod sh }))
+    | some x, some sh =>
+      match ctxSizeOf sh with
+      | some n => .ok (s.set c (.ctx { x with size := n }))
+      | none => .oob
     | _, _ => .oob
   | .copyArrayF c f f2 =>
     match s.ctx c, s.get f with
